@@ -95,8 +95,20 @@ def m_pow(a, b):
     return math.pow(a, b)
 
 
+def m_isfinite(x):
+    return True if isinstance(x, SNum) else math.isfinite(x)      # a proxy denotes a (finite) real number
+
+
+def m_isinf(x):
+    return False if isinstance(x, SNum) else math.isinf(x)
+
+
+def m_isnan(x):
+    return False if isinstance(x, SNum) else math.isnan(x)
+
+
 math_shim = Shim(math, sin=ops.ssin, cos=ops.scos, exp=ops.sexp, sqrt=ops.ssqrt, pow=m_pow,
-                 fabs=ops.sfabs)
+                 fabs=ops.sfabs, isfinite=m_isfinite, isinf=m_isinf, isnan=m_isnan)
 
 
 # ---- numpy ---------------------------------------------------------------------------
